@@ -18,10 +18,11 @@ import OdakModel.Exec.OpsGenQuant
 import OdakModel.Exec.OpsGenFovea
 import OdakModel.Exec.OpsGenLoss
 import OdakModel.Exec.OpsGenPipe
+import OdakModel.Exec.OpsGenColour
 /-! `odakdrv`: reads one operation per line on stdin, prints the model's answer per line. -/
 namespace Odak.Exec
 
-def allOps : List (String × Handler) := opsIndex ++ opsWave ++ opsBeam ++ opsRot ++ opsPolar ++ opsRay ++ opsRays ++ opsColour ++ opsSlicing ++ opsFovea ++ opsProp ++ opsLoss ++ opsCodec ++ opsHolo ++ opsDual ++ opsGen ++ opsGenGeom ++ opsGenSamp ++ opsGenSlice ++ opsGenQuant ++ opsGenFovea ++ opsGenLoss ++ opsGenPipe
+def allOps : List (String × Handler) := opsIndex ++ opsWave ++ opsBeam ++ opsRot ++ opsPolar ++ opsRay ++ opsRays ++ opsColour ++ opsSlicing ++ opsFovea ++ opsProp ++ opsLoss ++ opsCodec ++ opsHolo ++ opsDual ++ opsGen ++ opsGenGeom ++ opsGenSamp ++ opsGenSlice ++ opsGenQuant ++ opsGenFovea ++ opsGenLoss ++ opsGenPipe ++ opsGenColour
 
 def step (line : String) : String :=
   match (line.trimAscii.toString.splitOn " ").filter (· ≠ "") with
